@@ -68,6 +68,21 @@ func TestC17(t *testing.T) {
 		}
 		Col.MarkExhaustive("zero value and constructor result of all 170 types")
 	})
+	if Thorough() {
+		// giants: the frames that can exceed 16 MiB (32-bit list counts) with 1.5 million and 2^22+3 entries
+		t.Run("giant-frames", func(t *testing.T) {
+			i := 0
+			for _, g := range giantFrames() {
+				i++
+				if !MyShare(i) {
+					continue
+				}
+				c := &CaseC17{Type: g.Type, How: "value", V: g}
+				Col.Case(Hash64([]byte(g.Type), []byte(fmt.Sprint(i))), true, "giant-frame(>16MiB)")
+				Direct(t, "C17", "c17", fmt.Sprintf("giant/%d", i), c, oracleC17)
+			}
+		})
+	}
 	for _, tn := range MyTypes() {
 		tn := tn
 		t.Run(tn, func(t *testing.T) {
@@ -201,6 +216,40 @@ func oracleC18Elem(c *CaseC18Elem) *Failure {
 		return failf("C18/"+name+"/element-error-swallowed", "element %d of %d returned an error from Encode (as an element with an over-long field does) but %s[%s] returned nil after writing %d bytes", c.FailAt, c.N, name, c.Prefix, buf.Len())
 	}
 	return nil
+}
+
+// giantFrames: SZSE frames whose body is a repeating group with a 32-bit count, at 1.5 million and 2^22+3 entries
+// (18 MB / 50 MB on the wire) - sizes the random generators do not reach.
+func giantFrames() []*Value {
+	var out []*Value
+	fts := Types["szse.SzseBinary"]
+	tb := TableOf(fts, &fts.Fields[fts.DynIndex()])
+	seen := map[string]bool{}
+	for _, key := range tb.Order {
+		bt := tb.TypeFor(key)
+		if seen[bt] {
+			continue
+		}
+		for fi, f := range Types[bt].Fields {
+			if f.Kind != "objlist" || NMask(f.Count) < 1<<31 {
+				continue
+			}
+			seen[bt] = true
+			for _, n := range []int{1500000, 1<<22 + 3} {
+				fv := Zero("szse.SzseBinary")
+				setKey(fv, fts, fts.FieldIndex(fts.Fields[fts.DynIndex()].Disc), key)
+				body := Skeleton(bt, 0)
+				e := body.F[fi].OL[0]
+				body.F[fi].OL = make([]*Value, n)
+				for j := range body.F[fi].OL {
+					body.F[fi].OL[j] = e
+				}
+				fv.F[fts.DynIndex()].O = body
+				out = append(out, fv)
+			}
+		}
+	}
+	return out
 }
 
 type PathStep struct {
